@@ -44,6 +44,14 @@ func (wrapper DelegationHooksWrapper) AfterUndelegationStarted(
 	) {
 		// if the operator is opting out, we need to use the finish epoch of the opt out.
 		unbondingCompletionEpoch = wrapper.keeper.GetOperatorOptOutFinishEpoch(ctx, operator)
+		if unbondingCompletionEpoch < 0 {
+			// the opt out matures at the end of this very block: its epoch was closed in
+			// BeginBlock (which forgets the finish epoch) and EndBlock completes the key
+			// removal. the operator's unbonding period is over, so there is nothing to hold;
+			// queueing the record under a negative epoch would panic and reject the
+			// undelegation.
+			return nil
+		}
 		// even if the operator opts back in, the undelegated vote power does not reappear
 		// in the picture. slashable events between undelegation and opt in cannot occur
 		// because the operator is not in the validator set.
